@@ -148,6 +148,24 @@ def analyse_masked(project: Project, fi: FunctionInfo, f=None) -> List[dict]:
                 continue
             masked, resets, whole_reads, rebound = [], [], [], []
             order = {id(x): k for k, x in enumerate(body)}
+
+            def is_mask(sl) -> bool:
+                """a boolean / index-array selection (not the integer index of an element-by-element fill)"""
+                def maskish(v):
+                    if isinstance(v, ast.Compare) or (isinstance(v, ast.UnaryOp) and isinstance(v.op, ast.Invert)):
+                        return True
+                    if isinstance(v, ast.BinOp) and isinstance(v.op, (ast.BitAnd, ast.BitOr, ast.BitXor)):
+                        return True
+                    if isinstance(v, ast.Call):
+                        nm_ = v.func.attr if isinstance(v.func, ast.Attribute) else getattr(v.func, "id", "")
+                        return nm_ in ("where", "nonzero", "flatnonzero", "isfinite", "isnan", "isinf", "logical_and", "logical_or",
+                                       "logical_not", "isclose", "argwhere", "greater", "less", "greater_equal", "less_equal")
+                    return False
+                if isinstance(sl, ast.Name):
+                    defs_ = [x.value for x in body if isinstance(x, ast.Assign) and any(
+                        isinstance(t, ast.Name) and t.id == sl.id for t in x.targets)]
+                    return bool(defs_) and all(maskish(v) for v in defs_)
+                return maskish(sl)
             for x in body:
                 if isinstance(x, ast.Assign):
                     for t in x.targets:
@@ -156,7 +174,7 @@ def analyse_masked(project: Project, fi: FunctionInfo, f=None) -> List[dict]:
                             if isinstance(sl, ast.Slice) or (isinstance(sl, ast.Constant) and sl.value is Ellipsis) \
                                     or (isinstance(sl, ast.Tuple) and all(isinstance(e_, ast.Slice) for e_ in sl.elts)):
                                 resets.append(x)          # a store that covers the region
-                            elif isinstance(sl, (ast.Name, ast.Compare, ast.BinOp, ast.UnaryOp)):
+                            elif is_mask(sl):
                                 masked.append(x)          # a store under a mask / an index array
                         elif isinstance(t, ast.Name) and t.id in views and t.id != B and not (
                                 isinstance(x.value, ast.Subscript) and isinstance(x.value.value, ast.Name) and x.value.value.id == B):
